@@ -7,7 +7,7 @@
      implementation sent to the backend at the same call index, otherwise the oracle answers with an
      ill-shaped triple and the model run ends in Err. *)
 From Coq Require Import List Arith ZArith QArith Qabs Bool.
-From TLV Require Import Base.Shape Base.PyList Base.Tensor Base.Ops Model.SvdDecomp Model.SvdDecompSymeig Corr.Common.
+From TLV Require Import Base.Shape Base.PyList Base.Tensor Base.Ops Model.SvdDecomp Model.SvdDecompSymeig Model.SvdDecompRand Corr.Common.
 Import ListNotations.
 
 Definition atol : Q := Qmake 1%Z 1000000000%positive.
@@ -45,12 +45,34 @@ Definition tape_symeig (tape : list tape_entry) (k : nat) (M : tensor Q) : ans :
   | None => bad
   end.
 
+(* svd="randomized_svd": the oracle of the generic model is the TRANSCRIPTION Model/SvdDecompRand.v.  Every SVD call of such a
+   run owns a group of 7 tape entries: (Omega, (_, [n_eigenvecs], _)) -- the Gaussian test matrix drawn by the code and the
+   number of triplets it asked for --, five (QR query, (Q, _, _)) entries (first projection + two power iterations) and the
+   (reduced matrix, LAPACK answer) entry of the inner truncated_svd.  The model computes every query itself and compares it
+   with the taped one (an ill-matched query makes the run end in Err). *)
+Definition rand_group : nat := 7.
+Definition badt : tensor Q := mk [] [].
+Definition tape_rand (tape : list tape_entry) (k : nat) (M : tensor Q) : ans :=
+  let b := (rand_group * k)%nat in
+  match nth_error tape b with
+  | Some (Omega, (_, neq, _)) =>
+      let ne := Z.to_nat (Qnum (hd 0%Q neq)) in
+      let qr := fun c X => match nth_error tape (b + 1 + c)%nat with
+                           | Some (Xq, (Qa, _, _)) => if qt_close atol rtol X Xq then Qa else badt
+                           | None => badt end in
+      let inner := fun red => match nth_error tape (b + 6)%nat with
+                              | Some (Rq, a) => if qt_close atol rtol red Rq then a else bad
+                              | None => bad end in
+      randomized_svd Qops qr inner M Omega ne 5%nat 2%nat
+  | None => bad
+  end.
+
 (* symeig runs: U is a computed quotient, so every factor is compared with tolerance (runs that keep a null-space triplet,
    whose derived columns are rounding noise divided by sqrt(eps), are not sent here: they are judged by the predicates only) *)
 Definition atol_s : Q := Qmake 1%Z 10000000%positive.
 Definition rtol_s : Q := Qmake 1%Z 10000000%positive.
 
-Inductive kind := KTT | KTTM | KTR (mode : nat) | KTucker (n_iter : nat) | KStrict | KSym (k : kind).
+Inductive kind := KTT | KTTM | KTR (mode : nat) | KTucker (n_iter : nat) | KStrict | KSym (k : kind) | KRand (k : kind).
 Inductive outcome := OErr | OFactors (fs : list (tensor Q)) | OTucker (core : tensor Q) (fs : list (tensor Q))
                  | ORanks (strict realised : list nat).
 
@@ -89,6 +111,7 @@ Definition agree_kind (sv : nat -> tensor Q -> ans) (fa : list (tensor Q) -> lis
                    all2 Nat.eqb (realised_tt_rank (shape X) rk) realised
                | Err, OErr => true | _, _ => false end
   | KSym _ => false
+  | KRand _ => false
   end.
 
 Definition agree (c : case) : bool :=
@@ -99,6 +122,11 @@ Definition agree (c : case) : bool :=
          svd_interface without `method`, i.e. with truncated_svd -- calls 0..ndim-1 are symeig entries, the later ones svd entries *)
       let nsym := match k' with KTucker _ => ndim X | _ => length tape end in
       agree_kind (fun k M => if k <? nsym then tape_symeig tape k M else tape_svd tape k M) factors_close
+                 (fun core fs ci fi => qt_close atol_s rtol_s core ci && all2 (qt_close atol_s rtol_s) fs fi) k' X rank out
+  | KRand k' =>
+      (* same split for tucker(svd="randomized_svd"): the HOOI sweeps use truncated_svd; their entries follow the groups *)
+      let nr := match k' with KTucker _ => ndim X | _ => (length tape / rand_group)%nat end in
+      agree_kind (fun k M => if k <? nr then tape_rand tape k M else tape_svd tape (rand_group * nr + (k - nr))%nat M) factors_close
                  (fun core fs ci fi => qt_close atol_s rtol_s core ci && all2 (qt_close atol_s rtol_s) fs fi) k' X rank out
   | _ => agree_kind (tape_svd tape) factors_agree
                  (fun core fs ci fi => qt_close atol rtol core ci && all2 qt_eqb fs fi) k X rank out
